@@ -9,6 +9,7 @@ import operator
 import os
 import socket
 import sys
+import threading
 import warnings
 from pathlib import Path
 from typing import TYPE_CHECKING, Any, TypeGuard
@@ -47,7 +48,9 @@ def dump(obj: Any, path: Path) -> None:
     such that ``path`` never contains a partially written object.
     """
     path.parent.mkdir(parents=True, exist_ok=True)
-    tmp_path = path.with_name(f"{path.name}.tmp")
+    # The temporary name is unique per process and thread, two writers of the
+    # same path (e.g., two processes loading the same run folder) must not share it.
+    tmp_path = path.with_name(f"{path.name}.{os.getpid()}-{threading.get_ident()}.tmp")
     with tmp_path.open("wb") as f:
         cloudpickle.dump(obj, f)
     os.replace(tmp_path, path)  # noqa: PTH105
